@@ -1507,3 +1507,11 @@ Lemma range_only_file_answers (size_of : N -> N) (s : site) (r : request) (q : c
   (forall o, respond size_of s r q = AOther o -> o = handle s r /\ (forall n enc, o <> Serve n enc)) /\
   (forall n enc, handle s r = Serve n enc -> respond size_of s r no_cond = AContent n enc CFull).
 Proof. split; [intros o; apply respond_other|intros n enc; apply respond_no_cond]. Qed.
+
+(* the listing filter is EXACT: an entry of the directory is listed iff it is not hidden — by
+   identity, i.e. by what os.Stat sees: for a symbolic link, the identity of its followed target *)
+Lemma visible_kids_exact fs hide kids k :
+  In k (visible_kids fs hide kids) <-> In k kids /\ is_hidden fs hide k = false.
+Proof.
+  unfold visible_kids, is_hidden. rewrite filter_In, hidden_ids_spec, Bool.negb_true_iff. reflexivity.
+Qed.
